@@ -313,3 +313,6 @@ package common
 //@   -- added for C23, ASSUMED: a Blake3 digest is never the all-zero string (the code itself uses the zero hash as "not cached yet")
 //@   assumes [nonzero] result.HasValue()
 //@   ensures [auth-untouched] ver.SignaturesMap == old(ver.SignaturesMap) && ver.AggregatedSignature == old(ver.AggregatedSignature)
+//@   -- C15/C17: the digest is never the all-zero hash (probability 2^-256 for Blake3): with [cached] this makes repeated calls on an
+//@   -- object return the same value. ASSUMED (cryptographic), not verified against the body.
+//@   assumes [nonzero] result.HasValue()
